@@ -501,10 +501,17 @@ class UnionMetaType(StructureMetaType):
             size = stream.tell() - start
             stream.seek(start)
             buf = stream.read(size)
+            if len(buf) != size:
+                raise EOFError(f"Read {len(buf)} bytes, but expected {size}")
         else:
             result = {}
             sizes = {}
+            start = stream.tell()
             buf = stream.read(cls.size)
+            if len(buf) != cls.size:
+                # The members decide whether the bytes that are there suffice (tail padding may be missing at the end of
+                # the input, like for structures), but the union ends where its size says, not where a short read stopped
+                stream.seek(start + cls.size)
 
         # Create the object and set the values
         # Using type.__call__ directly calls the __init__ method of the class
